@@ -1,4 +1,5 @@
 mod c01;
+mod c03;
 mod c02;
 mod c04;
 mod c05;
@@ -69,6 +70,20 @@ fn main() {
     }
     return;
   }
+  if args[1] == "c03-derives" {
+    // mc c03-derives <text>: reference recogniser vs parser on one text (triage aid)
+    let t = args[2].replace("\\n", "\n").replace("\\t", "\t");
+    println!("derivable: {}", c03::grammar().derives(&t));
+    println!("parser: {:?}", cddl::cddl_from_str(&t, false).map(|_| "accepted").map_err(|e| e.to_string()));
+    return;
+  }
+  if args[1] == "c17-setup" {
+    std::process::exit(c17::setup());
+  }
+  if args[1] == "c17-hashes" {
+    c17::hashes(if args.get(2).map(|s| s.as_str()) == Some("thorough") { Tier::Thorough } else { Tier::Quick });
+    return;
+  }
   if args[1] == "c17-show" {
     // mc c17-show <cddl-text>: the code cddl-derive generates (triage aid)
     match c17::generate(&args[2].replace("\\n", "\n")) {
@@ -113,6 +128,8 @@ fn main() {
       "C06" => c06::replay(&j["case"]),
       "C20" => c20::replay(&j["case"]),
       "C16" => c16::replay(&j["case"]),
+      "C03" => c03::replay(&j["case"]),
+      "C17" => c17::replay(&j["case"]),
       "C18" => c18::replay(&j["case"]),
       "C19" => c19::replay(&j["case"]),
       "C05" => c05::replay(&j["case"]),
@@ -152,6 +169,8 @@ fn main() {
     "C06" => c06::run(tier),
     "C20" => c20::run(tier),
     "C16" => c16::run(tier),
+    "C03" => c03::run(tier),
+    "C17" => c17::run(tier),
     "C18" => c18::run(tier),
     "C19" => c19::run(tier),
     "C05" => c05::run(tier),
